@@ -182,7 +182,7 @@ func checkClearsignWith(c ClearsignCase, kr openpgp.EntityList, armored bool, kr
 
 var specC11 = Register(&Spec[ClearsignCase]{
 	Prop: "C11", Name: "clearsign",
-	Rule:  "fault enumeration over clearsigned documents: C07 documents (1..3 paragraphs, LF) signed with clearsign.Encode by an RSA entity from a per-process pool; keyring = signer only / signer among others / others only / empty for the unmutated document; the same keyring OBJECT changed in place (to other keys, to no keys) between two reads of the same bytes - the second read must fail; then with the signer in the keyring EVERY single-byte substitution (XOR 0x01, XOR 0x20, 'A'), EVERY single-byte deletion, EVERY single-byte insertion ('A', blank, newline), EVERY truncation length, splices of a foreign paragraph before the armor, inside the signed text, between text and signature, inside the signature armor and after it, replacement of the signature by that of another key or of another text, and removal of the signature block; a second complete clearsigned document appended (same signer, other signer, a replay of the first); the binary signature truncated at 8 lengths or with one byte flipped (every byte in the thorough tier, every 7th in quick) and armored afresh with a correct checksum, alone and under an altered text; a good signature followed by junk, a NUL byte, a truncated or a damaged second signature, or with a well-formed user-ID or literal-data packet or an empty / one-byte / indeterminate-length signature packet in front of or behind it, inside a fresh armor; and for EVERY generated edit: if the armor then delivers the original signature plus further bytes, reading must fail; each character of the armor's CRC-24 line replaced by other printable characters, also with an armor-END look-alike or a whole second signed document behind the damaged block (must fail: the signature is damaged, as gpgv says too). Oracle: reading (ParagraphReader.All and Decoder.Decode) ends in an error, or succeeds with Signer() == signing entity in the keyring and paragraphs == those of the signed text; success with a nil signer is allowed only when the input no longer starts with the armor header; the unmutated document with the signer in the keyring must be accepted. Non-trivial: every faulted case; distinct by (bytes, keyring).",
+	Rule:  "fault enumeration over clearsigned documents: C07 documents (1..3 paragraphs, LF; a third with a field of Latin-1 / non-UTF-8 bytes) signed with clearsign.Encode by an RSA entity from a per-process pool; keyring = signer only / signer among others / others only / empty for the unmutated document; the same keyring OBJECT changed in place (to other keys, to no keys) between two reads of the same bytes - the second read must fail; then with the signer in the keyring EVERY single-byte substitution (XOR 0x01, XOR 0x20, 'A'), EVERY single-byte deletion, EVERY single-byte insertion ('A', blank, newline), EVERY truncation length, splices of a foreign paragraph before the armor, inside the signed text, between text and signature, inside the signature armor and after it, replacement of the signature by that of another key or of another text, and removal of the signature block; a second complete clearsigned document appended (same signer, other signer, a replay of the first); the binary signature truncated at 8 lengths or with one byte flipped (every byte in the thorough tier, every 7th in quick) and armored afresh with a correct checksum, alone and under an altered text; a good signature followed by junk, a NUL byte, a truncated or a damaged second signature, or with a well-formed user-ID or literal-data packet or an empty / one-byte / indeterminate-length signature packet in front of or behind it, inside a fresh armor; and for EVERY generated edit: if the armor then delivers the original signature plus further bytes, reading must fail; each character of the armor's CRC-24 line replaced by other printable characters, also with an armor-END look-alike or a whole second signed document behind the damaged block (must fail: the signature is damaged, as gpgv says too). Oracle: reading (ParagraphReader.All and Decoder.Decode) ends in an error, or succeeds with Signer() == signing entity in the keyring and paragraphs == those of the signed text; success with a nil signer is allowed only when the input no longer starts with the armor header; the unmutated document with the signer in the keyring must be accepted. Non-trivial: every faulted case; distinct by (bytes, keyring).",
 	Check: checkClearsign,
 })
 
@@ -197,6 +197,16 @@ func genSignBase(t *rapid.T) SignBase {
 		d = genDocCase(t, 3)
 	}
 	d.Text = strings.ReplaceAll(d.Text, "\r\n", "\n")
+	if rapid.IntRange(0, 2).Draw(t, "latin1") == 0 {
+		// the signed text is bytes, not UTF-8: a Latin-1 name in a field (old changelogs and
+		// control files are full of them) is signed, verified and handed out as it is
+		if _, clash := d.Want[0].Values["X-Latin1"]; !clash {
+			v := rapid.SampledFrom([]string{"caf\xe9 \xfcber", "\xff\xfe", "J\xf6rg M\xfcller <j@m.de>", "a\x80b", "\xc3", "\xe9"}).Draw(t, "latin1v")
+			d.Text = "X-Latin1: " + v + "\n" + strings.TrimLeft(d.Text, "\n")
+			d.Want[0].Order = append([]string{"X-Latin1"}, d.Want[0].Order...)
+			d.Want[0].Values["X-Latin1"] = v
+		}
+	}
 	return SignBase{Doc: d, Key: rapid.IntRange(0, 2).Draw(t, "key")}
 }
 
